@@ -20,9 +20,9 @@ type metaCall struct {
 	AddPairs bool        // attach them with AddPairs instead of a chain of Add
 	// Reuse (AddPairs only): the application keeps its map and changes it after AddPairs returned
 	// (overwrites every value, adds a key); the call's metadata is what was attached, not what the map became
-	Reuse bool
-	Unary    bool
-	Abandon  bool // the call is cancelled between its metadata packet and its invoke (soft cancel only)
+	Reuse   bool
+	Unary   bool
+	Abandon bool // the call is cancelled between its metadata packet and its invoke (soft cancel only)
 }
 
 type c11Case struct {
